@@ -889,10 +889,17 @@ func (ackHandler) HandleMessage(c *Client, msg Message) {
 func (c *Client) passToHandler(hdr Header) (err error) {
 	handler := c.handlers[hdr.typ]
 
-	c.awaitMu.Lock()
-	replyChan, needsReply := c.awaiting[hdr.id]
-	delete(c.awaiting, hdr.id)
-	c.awaitMu.Unlock()
+	var replyChan chan<- Message
+	needsReply := false
+	switch hdr.typ {
+	case MsgKeepAlive, MsgROAccessReport, MsgReaderEventNotification:
+		// Reader-initiated messages are never replies, whatever their ID.
+	default:
+		c.awaitMu.Lock()
+		replyChan, needsReply = c.awaiting[hdr.id]
+		delete(c.awaiting, hdr.id)
+		c.awaitMu.Unlock()
+	}
 
 	if !needsReply && handler == nil && c.defaultHandler == nil {
 		c.logger.MsgUnhandled(hdr)
